@@ -401,6 +401,54 @@ func runC18(c *core.Ctx, res *core.Result) {
 	}
 	res.Count("concurrent_reads_during_writes", during.Load())
 
+	// ---- targeted: the writer inserts keys in descending order, i.e. always right in front of the key
+	// a reader is seeking (the most recently published one); Seek must never land on a smaller key
+	{
+		mt := memtable.NewMemTable()
+		var lastPub atomic.Int64
+		lastPub.Store(-1)
+		total := 4000
+		dkey := func(i int) []byte { return []byte(fmt.Sprintf("d%07d", total-i)) }
+		var dstop atomic.Bool
+		var dwg sync.WaitGroup
+		var seeksDuring atomic.Int64
+		for g := 0; g < 3; g++ {
+			dwg.Add(1)
+			go func() {
+				defer dwg.Done()
+				for !dstop.Load() {
+					j := lastPub.Load()
+					if j < 0 {
+						continue
+					}
+					t := dkey(int(j))
+					it := mt.NewIterator()
+					it.Seek(t)
+					seeksDuring.Add(1)
+					if !it.Valid() {
+						report(fmt.Sprintf("descending-insert phase: Seek(%s) is invalid although the key was inserted before the seek started", t))
+						return
+					}
+					if k := it.Key(); bytes.Compare(k, t) < 0 {
+						report(fmt.Sprintf("descending-insert phase: Seek(%s) landed on the smaller key %s (inserted concurrently right in front of the target)", t, k))
+						return
+					}
+				}
+			}()
+		}
+		for i := 0; i < total && !stop.Load(); i++ {
+			mt.Put(dkey(i), []byte("v"), uint64(i+1))
+			lastPub.Store(int64(i))
+		}
+		dstop.Store(true)
+		dwg.Wait()
+		if firstMsg != "" {
+			res.Violate("concurrent_reader_mismatch", firstMsg, feat)
+			return
+		}
+		res.Count("descending_phase_seeks", seeksDuring.Load())
+	}
+
 	// ---- pool: readers during switching
 	cfg := config.NewDefaultConfig(c.Dir)
 	cfg.MaxMemTables = 64
